@@ -89,8 +89,14 @@ int cif_packet_create(cif_packet_tp **packet, UChar *names[]) {
                     entry->key_orig = cif_u_strdup(*next);
 
                     if (entry->key_orig == NULL) {
+                        /*
+                         * The packet's keys are the normalized names, some of them already paired with distinct original
+                         * names.  Let the packet own them all, so that freeing it releases each string exactly once.
+                         */
+                        (*packet)->map.is_standalone = 1;
                         cif_packet_free(*packet);
-                        FAIL(soft, CIF_MEMORY_ERROR);
+                        free(names_norm);
+                        return CIF_MEMORY_ERROR;
                     }
                 }
             }
